@@ -46,6 +46,15 @@ CLAIMS = {
    note="the builders' bytes are tied differentially (BUILD lines); the after/between lock end-to-end statements follow from the instruction theorems by composition that is exercised, not separately proved.",
    technique="Lean 4 proof by symbolic execution of the instruction's op term (omega on Int) + exhaustive boundary-grid oracle + differential correspondence",
    design="§5 C16"),
+ 'C20': dict(
+   text="Proved: (table obligations, decide +kernel over the tables regenerated from /repo on this run) codes 0-91 are the assigned instructions in order, every code 92-255 is in the NOP table under the name NOP<code> and shares the one NOP function; "
+        "the model dispatches every code >= 92 to NOP; NOP spec - one signed count byte, ScriptExecutionError if negative, otherwise removes exactly count items and changes nothing else; "
+        "SOFT-FORK SAFETY for every op table, script list, cache, limits and fuel: installing at a NOP code any op that reads the count as NOP does, pops that many items, inspects them with an arbitrary predicate and may fail (failure not caught by TRY = uncatchable abort) "
+        "never turns a rejected list into an authorized one - the runs are identical up to the first failure of the new op (lock-step simulation proved by induction over the interpreter). "
+        "Tie: NOP codes x all 256 count bytes x stack depths on the implementation and the model; NOPn d<signed>/x<byte> compile+decompile round trip for every (code,count); fork implication measured in fresh interpreters with/without add_soft_fork for a family of fork ops at free codes, name/alias resolution and byte identity.",
+   note="'not wrapped in a TRY block' is modelled as the fork op's failure being uncatchable; the registry side (add_opcode/add_soft_fork handlers) is exercised, not modelled.",
+   technique="Lean 4 proof (simulation relation over the op DSL, decide +kernel table obligations) + exhaustive NOP grid + fresh-interpreter fork differential",
+   design="§5 C20"),
  'C10': dict(
    text="Lean theorems over all integers / all byte strings: bytesToInt (intToBytes n) = some n, decoding total exactly on non-empty strings, decoded range, "
         "top bit of the encoding = sign, and minimality of the encoding (no shorter string decodes to n). The model is tied to int_to_bytes / bytes_to_int / "
